@@ -109,7 +109,8 @@ def pow_continuity_slice(repo):
     import re
     from extract import Source, Piece, ExtractError
     src = Source(repo, SLSP)
-    a = re.search(r'^[ \t]*// Check POW for all headers\.\n', src.src, re.M)
+    # start: the comment block that introduces the PoW check ("// Check POW ...", whatever follows on that line and on further comment lines)
+    a = re.search(r'^[ \t]*// Check POW[^\n]*\n(?:[ \t]*//[^\n]*\n)*', src.src, re.M)
     b = re.search(r'^[ \t]*// Verify MMR proof\n', src.src, re.M)
     if not a or not b or b.start() < a.end():
         raise ExtractError('the PoW / continuity statements of SendLastStateProofProcess::execute were not found in %s (anchored on their comments)' % SLSP)
